@@ -672,6 +672,83 @@ class Prover:
 
 
 # ---------------------------------------------------------------------------
+# computed kind "replace"
+# ---------------------------------------------------------------------------
+
+
+def _dynamic_replace_unsafe(cfg, call: ast.Call, kind: ast.Name, at) -> Optional[str]:
+    """``LintFix(kind, anchor, [whitespace..])`` with ``kind`` a local that may hold "replace".
+
+    For every assignment D of the constant "replace" to ``kind``: (i) D is dominated by a
+    positive ``X.is_type(<whitespace types>)`` test, (ii) the anchor variable is, at D, bound to
+    that same X, and (iii) D's value cannot arrive at the call along a path that re-binds the
+    anchor variable in between (a value left over from an earlier loop iteration).  Returns a
+    reason when one of them fails, None when all hold."""
+    anchor = _fix_anchor(call)
+    if not isinstance(anchor, ast.Name):
+        return "the anchor of the computed-kind fix is not a plain local"
+    rd = cfg.reaching()
+
+    def assigns(name: str):
+        out = []
+        for node in cfg.nodes:
+            if isinstance(node, (ast.Assign, ast.AnnAssign, ast.AugAssign)):
+                tg = node.targets if isinstance(node, ast.Assign) else [node.target]
+                if any(isinstance(t, ast.Name) and t.id == name for t in tg) or any(
+                    isinstance(t, (ast.Tuple, ast.List)) and any(isinstance(x, ast.Name) and x.id == name for x in ast.walk(t)) for t in tg
+                ):
+                    out.append(node)
+            elif isinstance(node, (ast.For, ast.With)) and any(isinstance(x, ast.Name) and x.id == name and isinstance(x.ctx, ast.Store) for x in ast.walk(node.target if isinstance(node, ast.For) else node)):
+                out.append(node)
+        return out
+
+    kind_defs = assigns(kind.id)
+    anchor_defs = assigns(anchor.id)
+    # an assignment whose value mentions the kind variable itself passes the old value on: it does not overwrite it
+    killers = [k_ for k_ in kind_defs if not any(isinstance(x, ast.Name) and x.id == kind.id for x in ast.walk(getattr(k_, "value", None) or ast.Pass()))]
+    for d in kind_defs:
+        if not (isinstance(d, ast.Assign) and isinstance(d.value, ast.Constant) and d.value.value == "replace"):
+            continue
+        # (i) + (ii)
+        ws_exprs = []
+        for e, pol in cfg.conditions(d):
+            if pol and isinstance(e, ast.Call) and last_attr(e) == "is_type" and isinstance(e.func, ast.Attribute) and e.args:
+                ts = {a.value for a in e.args if isinstance(a, ast.Constant)}
+                if len(ts) == len(e.args) and ts <= WS_TYPES:
+                    ws_exprs.append(norm(e.func.value))
+        if anchor.id in ws_exprs:
+            # the test is on the anchor variable itself: (ii) holds if it is not re-bound between test and d
+            ws_exprs = [x for x in ws_exprs if x != anchor.id] + sorted({norm(a.value) for a in rd.defs_at(d, anchor.id) if getattr(a, "kind", None) == "assign" and a.value is not None and not a.path})
+        if not ws_exprs:
+            return f"`{kind.id} = 'replace'` is not under a test that the segment to replace is whitespace"
+        ads = rd.defs_at(d, anchor.id)
+        bound = {norm(a.value) for a in ads if getattr(a, "kind", None) == "assign" and a.value is not None and not a.path}
+        if len(ads) != len(bound) or not bound or not bound <= set(ws_exprs):
+            return f"where `{kind.id} = 'replace'` is set, `{anchor.id}` is not (only) the segment that was tested to be whitespace ({sorted(ws_exprs)})"
+        # (iii) forward from d; stop at other definitions of the kind; remember whether the anchor was re-bound
+        st = cfg.stmt_of(call)
+        seen = set()
+        stack = [(d, False)]
+        while stack:
+            node, dirty = stack.pop()
+            for m_ in cfg.succ.get(node, ()):
+                if m_ is not d and m_ in killers:
+                    continue  # the value of d is overwritten here
+                nd = dirty or (m_ in anchor_defs)
+                if m_ is st:
+                    if nd:
+                        return (
+                            f"the value 'replace' assigned to `{kind.id}` can still be in force when `{anchor.id}` has been re-bound "
+                            "(it is not reset before the next anchor is chosen, e.g. in the next loop iteration)"
+                        )
+                if (id(m_), nd) in seen:
+                    continue
+                seen.add((id(m_), nd))
+                stack.append((m_, nd))
+    return None
+
+
+# ---------------------------------------------------------------------------
 # MOVE
 # ---------------------------------------------------------------------------
 
@@ -844,10 +921,67 @@ def _is_segment_class(repo, m, name: str):
     return None
 
 
+def _r14c(chk, repo) -> None:
+    """Respacing may strip the newline between two blocks ("touch:inline" and friends).  Next to a
+    comment that glues the following code onto the comment line: the code becomes comment text.
+    determine_constraints therefore withdraws the strip request whenever either neighbour holds a
+    comment -- unconditionally, whatever the source of the request (block config, parent config,
+    or the caller's argument)."""
+    chk.rule(
+        "R14c",
+        "determine_constraints withdraws newline stripping next to a comment on every path: the `= False` store guarded by the comment test has no other "
+        "guard than the existence of both blocks, and no later store can switch stripping back on",
+    )
+    f = repo.fn("src/sqlfluff/utils/reflow/respace.py", "determine_constraints")
+    cfg = cfg_of(f)
+    params = {a.arg for a in f.args.args}
+    rets = [r for r in walk_local(f) if isinstance(r, ast.Return) and isinstance(r.value, ast.Tuple) and len(r.value.elts) == 3]
+    if not rets or not all(isinstance(r.value.elts[2], ast.Name) for r in rets):
+        raise AnalysisError("determine_constraints: (pre, post, strip_newlines) return not found")
+    flag = rets[0].value.elts[2].id
+
+    def is_comment_test(e) -> bool:
+        return any(
+            isinstance(c, ast.Call) and last_attr(c) == "is_type" and any(isinstance(a, ast.Constant) and a.value == "comment" for a in c.args) for c in ast.walk(e)
+        ) or any(isinstance(a, ast.Attribute) and a.attr == "is_comment" for a in ast.walk(e))
+
+    stores = [n for n in walk_local(f) if isinstance(n, ast.Assign) and any(isinstance(t, ast.Name) and t.id == flag for t in n.targets)
+              and isinstance(n.value, ast.Constant) and n.value.value is False]
+    guarded = []
+    for st in stores:
+        ifs = [g for g in cfg.guards(st) if isinstance(g.stmt, ast.If)]
+        if any(g.polarity and is_comment_test(g.stmt.test) for g in ifs):
+            guarded.append((st, ifs))
+    chk.count("R14c.comment_guards", len(guarded))
+    if not chk.require(bool(guarded), "R14c", f, "determine_constraints no longer switches newline stripping off next to a comment: a stripped newline glues code onto a `--` comment",
+                       detail="comment guard exists"):
+        return
+    for st, ifs in guarded:
+        extra = []
+        for g in ifs:
+            if is_comment_test(g.stmt.test):
+                continue  # the comment test itself, or the false arm of a sibling comment test (if/elif)
+            ats = atoms(g.stmt.test, g.polarity)
+            if ats and all(pol and isinstance(e, ast.Name) and e.id in params for e, pol in ats):
+                continue  # `if prev_block and next_block:` -- needed to look at their segments at all
+            extra.append(short(g.stmt.test, 60) + ("" if g.polarity else " (false)"))
+        chk.require(
+            not extra, "R14c", st,
+            f"the comment guard only runs under {extra}: when newline stripping was requested by another source (a block's own spacing config, the caller) "
+            "it is not withdrawn and the newline after a comment is deleted",
+            detail="comment guard is unconditional",
+        )
+        later = [n for n in walk_local(f) if n is not st and isinstance(n, (ast.Assign, ast.AugAssign)) and any(
+            isinstance(x, ast.Name) and x.id == flag and isinstance(x.ctx, ast.Store) for t in (n.targets if isinstance(n, ast.Assign) else [n.target]) for x in ast.walk(t)
+        ) and cfg.reaches(st, n)]
+        chk.require(not later, "R14c", st, "a later store can switch newline stripping back on after the comment guard", detail="comment guard is the last word")
+
+
 def run(chk) -> None:
     chk.rule("R14a", "in rules/layout and utils/reflow only WhitespaceSegment/NewlineSegment are constructed (constant text whitespace-only); x.edit(raw) only on whitespace/newline/indent receivers; other .edit() calls pass only source_fixes/source_str")
     chk.rule("R14b", "every LintFix delete in rules/layout and utils/reflow removes something established as whitespace/newline/indent, or is one half of a move (same expression re-created alongside), or is a reviewed site whose recorded facts still hold; layout rules do not call ReflowSequence.without()")
     repo = chk.repo
+    _r14c(chk, repo)
     mods = [m for s in SCOPES for m in repo.iter_modules(s)]
     pv = Prover(repo, mods)
     used: Dict[Tuple[str, str], int] = {}
@@ -986,6 +1120,15 @@ def run(chk) -> None:
                     okk and vals <= set(_CREATE_KINDS), "R14b", n,
                     f"LintFix with a computed kind that may be {sorted(map(str, vals)) or 'anything'}: cannot exclude a delete of a non-whitespace anchor", detail=f"dynamic kind: {short(n, 100)}",
                 )
+                if okk and "replace" in vals:
+                    # a `replace` by freshly built whitespace removes its anchor: wherever the kind can be
+                    # "replace", the anchor must be the segment that was established as whitespace
+                    why = _dynamic_replace_unsafe(cfg, n, k, at)
+                    chk.require(
+                        why is None, "R14b", n,
+                        f"LintFix with a computed kind: {why} -- a `replace` by whitespace then deletes a token that is not whitespace (e.g. a comment)",
+                        detail=f"dynamic replace anchors whitespace: {short(n, 100)}",
+                    )
                 continue
             if kind != "delete":
                 continue
@@ -1052,6 +1195,30 @@ LT = "src/sqlfluff/rules/layout/"
 RF = "src/sqlfluff/utils/reflow/"
 
 VARIANTS: List[Variant] = [
+    Variant(
+        "respace-comment-guard-only-under-parent-config", RF + "respace.py",
+        "        # Prohibit stripping newlines adjacent to comment segments (either\n        # immediately before or immediately after this point), since doing\n        # so could glue code to a comment marker and change meaning.\n        if any(seg.is_type(\"comment\") for seg in prev_block.segments) or any(\n            seg.is_type(\"comment\") for seg in next_block.segments\n        ):\n            strip_newlines = False\n",
+        "            if any(seg.is_type(\"comment\") for seg in prev_block.segments) or any(\n                seg.is_type(\"comment\") for seg in next_block.segments\n            ):\n                strip_newlines = False\n",
+        "R14c", "determine_constraints", "seeded C14-1: `count -- how many\\n    (*)` becomes `count -- how many    (*)`",
+    ),
+    Variant(
+        "quiet-respace-comment-guard-helper-local", RF + "respace.py",
+        "        if any(seg.is_type(\"comment\") for seg in prev_block.segments) or any(\n            seg.is_type(\"comment\") for seg in next_block.segments\n        ):\n            strip_newlines = False\n",
+        "        if any(seg.is_type(\"comment\") for seg in prev_block.segments):\n            strip_newlines = False\n        elif any(seg.is_type(\"comment\") for seg in next_block.segments):\n            strip_newlines = False\n",
+        "QUIET", None, "disjunction spelled as if/elif",
+    ),
+    Variant(
+        "lt08-fix-kind-default-hoisted-out-of-the-loop", LT + "LT08.py",
+        "            fix_type = \"create_before\"  # In most cases we just insert newlines.\n            if comma_style == \"oneline\":\n",
+        "            fix_type = \"create_before\" if bracket_idx == bracket_indices[0] else fix_type\n            if comma_style == \"oneline\":\n",
+        "R14b", "LT08", "seeded C14-2 (same effect): 'replace' left over from an earlier CTE deletes a comment",
+    ),
+    Variant(
+        "quiet-lt08-fix-kind-through-two-locals", LT + "LT08.py",
+        "                    if forward_slice[comma_seg_idx + 1].is_type(\"whitespace\"):\n                        fix_type = \"replace\"\n",
+        "                    if fix_point.is_type(\"whitespace\"):\n                        fix_type = \"replace\"\n",
+        "QUIET", None, "the whitespace test spelled on the anchor variable itself",
+    ),
     Variant(
         "lt10-inserts-a-comma-symbol", LT + "LT10.py",
         "            edit_segments.append(NewlineSegment())\n",
